@@ -278,29 +278,39 @@ Definition agree_partition (MAX size : N) (sizes : list N) : bool :=
                  (map (fun i => fold_right N.add 0 (firstn i sizes)) (seq 0 (N.to_nat n))) &&
   (fold_right N.add 0 sizes =? size).
 
-(* acceptor for the packing loop, on sizes only: `trace` lists, root level first, the wrapped size
+(* acceptor for the packing loop, on sizes only: `trace` lists, deepest level first, the wrapped size
    and the number of infos of every level the real code produced.  Every level but the root must
    have been too big for a chunk, the root must fit, each level above another has exactly the infos
    self-encryption makes of the serialised chunk below (msgpack bin header: 2, 3 or 5 bytes), and
    wrapped sizes respect the bound assumed of the codec (codec_sizes). *)
 Definition ser_len (n : N) : N := n + (if n <? 256 then 2 else if n <? 65536 then 3 else 5).
 
-Fixpoint pack_shape (MAX : N) (trace : list (N * N)) : bool :=
+Fixpoint pack_shape_up (MAX : N) (trace : list (N * N)) : bool :=
   match trace with
-  | [] => true
-  | (w, n) :: below =>
+  | [] => false
+  | (w, n) :: above =>
       (w <=? WRAP_BASE + WRAP_ENTRY * n) &&
-      match below with
-      | [] => true
-      | (w', _) :: _ => negb (w' <=? MAX) && (n =? num_chunks MAX (ser_len w'))
-      end && pack_shape MAX below
+      match above with
+      | [] => w <=? MAX                                   (* the root fits a chunk *)
+      | (_, n') :: _ => negb (w <=? MAX) && (n' =? num_chunks MAX (ser_len w)) && pack_shape_up MAX above
+      end
   end.
 
-Definition agree_pack (MAX : N) (trace : list (N * N)) : bool :=
-  match trace with
-  | (w, _) :: _ => (w <=? MAX) && pack_shape MAX trace
-  | [] => false
-  end.
+(* `trace`: deepest level (the First data map) first, root last *)
+Definition agree_pack (MAX : N) (trace : list (N * N)) : bool := pack_shape_up MAX trace.
+
+(* the (wrapped size, number of infos) sequence the model's packing loop goes through *)
+Fixpoint pack_trace (C : codec) (MAX : N) (fuel : nat) (lvl : level) : list (N * N) :=
+  let content := c_wrap C lvl in
+  (lenN content, lenN (dm_of lvl)) ::
+  (if lenN content <=? MAX then []
+   else match fuel with
+        | O => []
+        | S f => match se_encrypt C MAX (c_ser C content) with
+                 | inr _ => []
+                 | inl (dm, _) => pack_trace C MAX f (Additional dm)
+                 end
+        end).
 
 Definition gerror_code (e : gerror) : string :=
   match e with
